@@ -531,6 +531,9 @@ def _add_run(pid, run):
 
 _add_run("C10", Run("constant_union", ["./internal/ast/compiler"], COMPILER_HARNESS, ["VerifC10ConstantUnionDefault"], "internal/ast/compiler", needs_leaf=True, judge="prefix:C10"))
 _add_run("C08", Run("openapi_constraints", ["./internal/openapi"], OPENAPI_HARNESS, ["VerifC08OpenAPIConstraints"], "internal/openapi", needs_leaf=True, judge="prefix:C08"))
+_add_run("C04", Run("yaml_pipeline", ["./internal/codegen"], {"internal/codegen/zz_verif_c20_strict.go": "harness/pcodegen/zz_verif_c20_strict.go",
+                                                                   "internal/codegen/zz_verif_c20_docs_pipeline.go": "harness/pcodegen/zz_stub_docs.go"},
+                    ["VerifC04YAMLPipeline"], "internal/codegen", needs_leaf=True, panics="violation", judge="panic"))
 _add_run("C04", Run("yaml_types", ["./internal/yaml"], {"internal/yaml/zz_verif_c04_yaml.go": "harness/pyaml/zz_verif_c04_yaml.go"}, ["VerifC04YAMLTypes", "VerifC04YAMLVeneers"], "internal/yaml",
                     needs_leaf=True, panics="violation", judge="panic", flags=["-hangs"]))
 _add_run("C03", Run("pipeline_parameters", ["./internal/codegen"], {"internal/codegen/zz_verif_c20_strict.go": "harness/pcodegen/zz_verif_c20_strict.go",
